@@ -219,6 +219,13 @@ func (s *s3View) ListSegments(ctx context.Context, prefix string) ([]storage.S3O
 	if s.inst.isDead() {
 		return nil, errDead
 	}
+	if s.sc != nil && s.sc.gates("list") {
+		// a scheduling point inside the first-touch initialisation of a partition log (RestoreFromS3)
+		if out := s.sc.enter(ctx, s.inst, "list", prefix, func() {}); out != outOK {
+			s.v.log(s.inst.id, actorOf(ctx), "list", prefix, 0, out.String())
+			return nil, out.err()
+		}
+	}
 	var out []storage.S3Object
 	for _, k := range s.v.keys(prefix) {
 		b, _ := s.v.get(k)
